@@ -45,14 +45,14 @@ func (k Kind) String() string { return kindNames[k] }
 const Unknown = -2
 
 type Op struct {
-	Kind  Kind
-	Actor int // model.Auto, a slot, or Unknown
-	Key   string
-	Level model.Level
-	Len   int   // content length (0 = default)
-	Split []int // Create: sizes of the Write calls; SetReader: sizes the source reader returns per call
-	Paced bool  // Create: let the storing side drain after every Write (a slow writer)
-	DefaultLevel bool // Begin without a level argument (the documented default, ReadCommitted)
+	Kind         Kind
+	Actor        int // model.Auto, a slot, or Unknown
+	Key          string
+	Level        model.Level
+	Len          int   // content length (0 = default)
+	Split        []int // Create: sizes of the Write calls; SetReader: sizes the source reader returns per call
+	Paced        bool  // Create: let the storing side drain after every Write (a slow writer)
+	DefaultLevel bool  // Begin without a level argument (the documented default, ReadCommitted)
 }
 
 const DefaultLen = 8
@@ -117,23 +117,23 @@ func HistoryString(h []Op) []string {
 
 // Options of a run.
 type Options struct {
-	Slots    int
-	ObsKeys  []string // keys read after every step (include one that is never written)
-	Eager    bool     // settle all background work after every step
-	Spec     dbh.Spec
-	LateObs  bool // also read through finished handles after every step (C13)
-	ReaderObs bool // observe through GetReader as well as Get
+	Slots       int
+	ObsKeys     []string // keys read after every step (include one that is never written)
+	Eager       bool     // settle all background work after every step
+	Spec        dbh.Spec
+	LateObs     bool // also read through finished handles after every step (C13)
+	ReaderObs   bool // observe through GetReader as well as Get
 	ObsAutoOnly bool // observe through the autocommit actor only
-	NoObs    bool // no observation after steps (the caller observes itself)
+	NoObs       bool // no observation after steps (the caller observes itself)
 	// OpenFn replaces dbh.Open (the gRPC tier starts a server and returns the external client);
 	// UnknownCtx builds the context naming a never-issued transaction for that client.
 	OpenFn     func(spec dbh.Spec) (*dbh.Inst, error)
 	UnknownCtx func(ctx context.Context, txId string) context.Context
-	Free       bool // run without the scheduler (real goroutines, real time)
-	OnStart  func(r *Runner, op Op) // before the operation is issued
-	OnAck    func(r *Runner, op Op) // right after the operation returned, before background work settles
-	Epilogue func(r *Runner) *Mismatch
-	AfterStep func(r *Runner, i int, op Op) *Mismatch
+	Free       bool                   // run without the scheduler (real goroutines, real time)
+	OnStart    func(r *Runner, op Op) // before the operation is issued
+	OnAck      func(r *Runner, op Op) // right after the operation returned, before background work settles
+	Epilogue   func(r *Runner) *Mismatch
+	AfterStep  func(r *Runner, i int, op Op) *Mismatch
 }
 
 type Mismatch struct {
